@@ -289,6 +289,15 @@ def check_shared_buffers(report, facts, pa, rule):
     """An item that is emitted must own its payload: a mutable buffer created once, before the item loop, refilled in every
     iteration and handed *as is* to the item built in that iteration is shared by all of them - each earlier item ends up with the
     bytes (and the length) of the last one."""
+    if isinstance(pa, ast.FunctionDef):
+        # a bare function: every top-level loop of it (used where no pass analysis is needed or possible)
+        class _P:
+            pass
+        for lp in [st for st in pa.body if isinstance(st, ast.For)]:
+            q = _P()
+            q.loop_fn, q.loop, q.result, q.fname = pa, lp, returned_list(pa), pa.name
+            check_shared_buffers(report, facts, q, rule)
+        return
     fn, loop = pa.loop_fn, pa.loop
     pre = {}
     for st in fn.body:
